@@ -397,8 +397,9 @@ package gates
 //@ func (g *EvaluateGatesChip) evalFiltered(gate Gate, vars EvaluationVars, row uint64, selectorIndex uint64, groupRange Range, numSelectors uint64) (res []gl.QuadraticExtensionVariable)
 //@   locals glApi filter unfiltered i
 //@   props C15
-//@   circuit sound-only
+//@   circuit
 //@   requires canonQEs(vars.localConstants) && canonQEs(vars.localWires) && groupRange.start < 1048576 && groupRange.end < 1048576 && numSelectors < 1048576
+//@   complete_requires selectorIndex < len(vars.localConstants) && numSelectors <= len(vars.localConstants)
 //@   ghost unf []gl.QuadraticExtensionVariable = atentry(unfiltered, 0)
 //@   ensures selectorIndex < len(vars.localConstants) && numSelectors <= len(vars.localConstants)
 //@   ensures len(res) == len(unf) && canonQEs(res)
@@ -417,11 +418,16 @@ package gates
 //@ opaque def gf0(i, j) = 0
 //@ opaque def gf1(i, j) = 0
 //@ recdef gsum(j int, k int) QE = ite(k <= 0, tuple(0, 0), ite(j < gfl(k - 1), qe_addo(gsum(j, k - 1), tuple(gf0(k - 1, j), gf1(k - 1, j))), gsum(j, k - 1)))
+// a well-formed circuit description (completeness premise): one selector index per gate, each naming a group and a
+// constant column; no gate has more constraints than the declared total (plonky2: num_gate_constraints is their maximum)
+//@ def gates_fit(g, nc) = len(g.gates) <= len(g.selectorsInfo.selectorIndices) && len(g.selectorsInfo.groups) <= nc &&
+//@        forall(i, 0, len(g.gates), g.selectorsInfo.selectorIndices[i] < len(g.selectorsInfo.groups) && gfl(i) <= g.numGateConstraints)
 //@ func (g *EvaluateGatesChip) EvaluateGateConstraints(vars EvaluationVars) (res []gl.QuadraticExtensionVariable)
 //@   locals glApi constraints i i gate selectorIndex gateConstraints i constraint
 //@   props C15 C01
-//@   circuit sound-only
+//@   circuit
 //@   requires canonQEs(vars.localConstants) && canonQEs(vars.localWires) && g.numGateConstraints <= 4294967296 && sel_small(g.selectorsInfo)
+//@   complete_requires gates_fit(g, len(vars.localConstants))
 //@   ensures len(res) == g.numGateConstraints && canonQEs(res)
 //@   ensures forall(j, 0, g.numGateConstraints, res[j] == gsum(j, len(g.gates)))
 //@   ensures forall(i, 0, len(g.gates), 0 <= gfl(i) && gfl(i) <= g.numGateConstraints)
